@@ -23,15 +23,19 @@ def snapshot(v, memo=None):
             c.unknown = v.unknown
         return c
     if isinstance(v, ZList):
-        c = ZList(v.elem, v.arr, v.ln, kind=v.kind, maxlen=v.maxlen)
+        if v.items is not None:
+            c = ZList(v.elem, kind=v.kind, maxlen=v.maxlen, items=list(v.items))
+        else:
+            c = ZList(v.elem, v.arr, v.ln, kind=v.kind, maxlen=v.maxlen)
         c.oid = v.oid
         memo[i] = c
         return c
     if isinstance(v, HDict):
         c = HDict(v.name, dict(v.maps))
         c.oid = v.oid
-        c.refs = v.refs
         c.valtype = v.valtype
+        memo[i] = c
+        c.refs = {'list': [(r, snapshot(o, memo)) for r, o in v.refs.get('list', [])]}
         memo[i] = c
         return c
     if isinstance(v, HByteArray):
